@@ -916,7 +916,7 @@ func (x *Exec) checkFrame(exit, pre *State, c *Contract, pos token.Pos) {
 			}
 		}
 		for _, m := range c.Modifies {
-			if m == "*" || m == "heap" || m == k || strings.HasPrefix(k, m+".") {
+			if m == "*" || m == "heap" || m == k || strings.HasPrefix(k, m+".") || (m == "map" && strings.HasPrefix(k, "map<")) {
 				return true
 			}
 			if strings.HasSuffix(m, ".*") && strings.HasPrefix(k, m[:len(m)-1]) {
